@@ -132,10 +132,13 @@ type RawCfg struct {
 	RcvBuf        int
 	SndBuf        int    // send buffer of the stack endpoint (0 = default)
 	WriteGapMs    int    // the application lets this many virtual ms pass between two writes (0 = writes back to back)
+	WndFloor      bool   // with window scaling the peer truncates its window field (edge retreats by < 2^shift)
 	PeerFixedEdge bool   // the peer's application never reads: its window shrinks as data arrives (fixed right edge at ISS+1+PeerWnd)
 	RTTms         int    // peer answers this many virtual ms after receiving (0 = immediately)
 	Silent        int    // peer stays silent for this many timeouts at the start of the data phase
 	Close         string // none | shut (stack shuts down its write side after writing)
+	TrickleMs     int    // see TrickleN
+	TrickleN      int    // > 0: the peer acknowledges the first TrickleN data segments TrickleMs apart and then goes silent
 	PTBDelayMs    int    // the ICMP message arrives this long after the segment was sent (default: like an ACK, RTTms)
 	PTB           int    // if >0: an ICMP "fragmentation needed" with this next-hop MTU is offered as a deviation (letter p)
 }
@@ -196,6 +199,8 @@ func ParseRawCfg(s string) RawCfg {
 			c.WriteGapMs = atoi()
 		case "pfix":
 			c.PeerFixedEdge = atoi() != 0
+		case "wfloor":
+			c.WndFloor = atoi() != 0
 		case "rtt":
 			c.RTTms = atoi()
 		case "silent":
@@ -206,6 +211,8 @@ func ParseRawCfg(s string) RawCfg {
 			c.PTB = atoi()
 		case "ptbd":
 			c.PTBDelayMs = atoi()
+		case "trickle": // <ms>x<n>
+			fmt.Sscanf(v, "%dx%d", &c.TrickleMs, &c.TrickleN)
 		}
 	}
 	return c
@@ -310,6 +317,8 @@ type rawRun struct {
 	probed                 bool
 	sendingProbe           bool
 	straddled              bool
+	trickled               int
+	trickleDue             time.Duration
 	pRecv                  [][2]uint32 // absolute ranges of conforming peer data injected so far
 	pLast                  [2]uint32   // the most recent of them (zero length: none / not attributable)
 	peerRtx                int
@@ -399,6 +408,11 @@ func (x *rawRun) sendAck(ack uint32, wnd int, sack []ref.SACKBlock) {
 	edge := ack + uint32(wnd)<<x.peerShift()
 	if x.haveAdv && ref.SeqLT(edge, x.maxEdge) {
 		need := (x.maxEdge - ack + (1 << x.peerShift()) - 1) >> x.peerShift()
+		if x.cfg.WndFloor {
+			// a peer that truncates like most stacks do: field = free >> shift, so its edge
+			// retreats by less than one scale unit (RFC 7323 2.4 tolerates that)
+			need = (x.maxEdge - ack) >> x.peerShift()
+		}
 		if need > 65535 {
 			need = 65535
 		}
@@ -973,6 +987,14 @@ func (x *rawRun) deliverMenu(d *Decoded, f *Frame) []action {
 		if wnd -= got; wnd < 0 {
 			wnd = 0
 		}
+		// PeerWnd is in bytes (it travels unscaled in the SYN); later segments carry a field
+		if sh := x.peerShift(); sh > 0 {
+			if x.cfg.WndFloor {
+				wnd >>= sh
+			} else {
+				wnd = (wnd + (1 << sh) - 1) >> sh
+			}
+		}
 	}
 	process := func() { x.onStackFrame(d) }
 	ackNow := func(ack uint32, w int) func() {
@@ -995,6 +1017,30 @@ func (x *rawRun) deliverMenu(d *Decoded, f *Frame) []action {
 			if len(x.rtxTimes) == 0 && t.Seq == x.advAck {
 				x.rtxTimes = append(x.rtxTimes, f.At)
 			}
+		}})
+		return m
+	}
+	if x.cfg.TrickleN > 0 {
+		// a slow peer: the first segment is acknowledged at once, the next TrickleN-1 one after
+		// the other TrickleMs apart, everything after that is ignored (the peer has gone silent)
+		if x.trickled >= x.cfg.TrickleN {
+			m = append(m, action{name: "peer ignores (gone silent) " + name, do: func() {}})
+			return m
+		}
+		m = append(m, action{name: fmt.Sprintf("peer gets %s, acks it %d ms after the previous ack", name, x.cfg.TrickleMs), do: func() {
+			process()
+			x.trickled++
+			due := vtime.Elapsed()
+			if x.trickled > 1 {
+				if x.trickleDue > due {
+					due = x.trickleDue
+				}
+				due += time.Duration(x.cfg.TrickleMs) * time.Millisecond
+			}
+			x.trickleDue = due
+			ack := x.rcvNxt
+			x.pending = append(x.pending, pendingAck{due: due, send: ackNow(ack, wnd), name: "trickled ack"})
+			sort.SliceStable(x.pending, func(i, j int) bool { return x.pending[i].due < x.pending[j].due })
 		}})
 		return m
 	}
